@@ -208,6 +208,16 @@ def main(pid):
                 h.fail('mutual_info_estimator_numba.ensures.plugin_mi', {'n': n, 'shape': '3 dominant codes + 2000 codes that occur once', 'orientation': tag,
                                                                          'seed': h.seed}, f'{real} vs plug-in MI {ref}')
         h.bounded_note('plug-in MI at n = 2*10^5 with 2000 once-only classes (float32 tolerance 1e-3)', 'one seeded input, both orientations', 2)
+        # more than 2^16 distinct codes in the first argument (code tables indexed by narrow integers would pool classes)
+        n = 70000
+        Yd = rng.permutation(n).astype(np.int32)
+        Xd = (np.arange(n) % 3).astype(np.int32)
+        real = float(R.mutual_info_estimator_numba(Yd, Xd, np.float32(1.0), False))
+        ref = M.plugin_mi_reference(Yd, Xd)
+        h.record(('distinct70000',), True)
+        if not approx(real, ref, 1e-3):
+            h.fail('mutual_info_estimator_numba.ensures.plugin_mi', {'n': n, 'shape': 'all-distinct first argument (70000 codes) against 3 strata', 'seed': h.seed},
+                   f'{real} vs plug-in MI {ref}')
         if not quick:
             n = 10 ** 6
             Y = rng.integers(0, 1000, n).astype(np.int32)
@@ -293,6 +303,16 @@ def main(pid):
     if pid == 'C03':
         check_estimator([1.0], [True], {'selfpair', 'corrected', 'y_support', 'x_support'})
         check_estimator(None, None, {'selfpair', 'corrected'}, inputs=long_prefix_pairs())
+        # through numba_mi: a vector scored against itself gets its entropy under the corrected heuristic, whatever its codes are
+        import outrank.algorithms.importance_estimator as IE3
+        for vals in ([10, 20], [1, 2, 3, 4, 5, 6, 7], [5, 500, 50000], [0, 1, 2]):
+            v = rng.choice(np.array(vals, dtype=np.int64), size=120)
+            got = float(IE3.numba_mi(v.copy(), v.copy(), 'MI-numba-randomized', 1.0))
+            want = M.entropy_reference(v)
+            h.record(('selfscore', tuple(vals)), True)
+            if not approx(got, want, 1e-4):
+                h.fail('numba_mi.self_score_is_entropy', {'values': vals, 'vector': v}, f'{got} vs entropy {want}',
+                       obligations=['ranking_mi_numba.mutual_info_estimator_numba/ensures.selfpair'])
         # the corrected statistic on a sub-sample (ratio < 1): same identity, on the sampled rows
         check_estimator([0.5, 0.8], [True], {'sampled'})
         n_cor = 0
